@@ -20,6 +20,10 @@ Fails(e) ==
         \/ ~(\A i \in 1 .. n - 1 : CanAbut(e.kind, lx[i][1], lx[i][2], lx[i + 1][1], lx[i + 1][2]))
      THEN "HARNESS: the generated lexeme sequence is not well-formed / separable by the lexical grammar; "
      ELSE IF e.outcome # "ok" THEN "tokenization did not return normally; "
+     \* "identifiers may start with any configured letter, Latin or not": which letters beyond Latin-1 the expression tokenizer is
+     \* configured with is a configuration fact, not part of the property - a character from there that the lexical model writes
+     \* as a symbol may as well be a letter (and then merges with its neighbours): such sequences are not judged
+     ELSE IF e.kind \in {"expression", "expression-custom"} /\ \E i \in 1 .. n : lx[i][1] = "symbol" /\ lx[i][2][1] >= 256 THEN ""
      ELSE LET want == [i \in 1 .. n + 1 |-> IF i <= n THEN <<TypeOf(e.kind, lx[i][1]), lx[i][2]>> ELSE <<1, <<>>>>]
               got  == [i \in 1 .. Len(e.toks) |-> <<e.toks[i][1], e.toks[i][2]>>]
           IN IF got = want THEN ""
